@@ -1,6 +1,6 @@
 #!/bin/bash
 # usage: run_seed.sh <Cxx> <patch.diff> : applies the patch to /repo, runs the quick check, undoes the patch.
 cd /repo && git apply "$2" || { echo APPLY-FAILED; exit 2; }
-/verif/bin/check $1 --tier quick -q 2>&1 | grep -v "^KNOWN-FINDING" | cut -c1-260 | tail -${3:-6}
+GOVC_NOEVIDENCE=1 /verif/bin/check $1 --tier quick -q 2>&1 | grep -v "^KNOWN-FINDING" | cut -c1-260 | tail -${3:-6}
 git -C /repo checkout -- .
 git -C /repo status --short | grep -v "^??" | head -3
